@@ -69,7 +69,11 @@ impl ProtocolError {
             | Self::RateLimited { .. }
             | Self::ServiceUnavailable
             | Self::Timeout => true,
-            Self::Http(e) => e.is_timeout() || e.is_connect(),
+            // A connection that is reset or closed before the response is complete
+            // (request / body / decode kinds) is as transient as a failed connect
+            Self::Http(e) => {
+                e.is_timeout() || e.is_connect() || e.is_request() || e.is_body() || e.is_decode()
+            }
             Self::HttpStatus(status) => {
                 matches!(
                     status,
@@ -98,7 +102,7 @@ impl ProtocolError {
             | Self::ServiceUnavailable
             | Self::Timeout => true,
             // On WASM, is_connect() is not available, only check timeout
-            Self::Http(e) => e.is_timeout(),
+            Self::Http(e) => e.is_timeout() || e.is_request() || e.is_body() || e.is_decode(),
             Self::HttpStatus(status) => {
                 matches!(
                     status,
